@@ -1003,6 +1003,9 @@ class Engine:
         # 3. assume invariant
         for c in inv:
             self.assume(self.eval_spec_bool(c, frame, extra=env_extra))
+        if spec:
+            for gname, gexpr in spec.snapshot.items():
+                frame.set(gname, self.eval_spec(gexpr, frame, extra=env_extra))
         m0 = None
         if spec and spec.decreases:
             m0 = self.eval_spec(spec.decreases, frame, extra=env_extra)
